@@ -542,20 +542,27 @@ fn fold_constraint_set(
                 extensible: _,
             }),
         ) => return Ok(None),
+        // The values of a contained subtype are not known here. Leaving it out of an
+        // intersection gives a superset; a union with it, or a base that is one, is not bounded
+        // by the other operand.
         (
             SubtypeElements::ContainedSubtype {
                 subtype: _,
                 extensible: _,
             },
             Some(c),
-        )
-        | (
+        ) => {
+            return Ok(matches!(set.operator, SetOperator::Intersection).then(|| c.clone()));
+        }
+        (
             c,
             Some(SubtypeElements::ContainedSubtype {
                 subtype: _,
                 extensible: _,
             }),
-        ) => return Ok(Some(c.clone())),
+        ) => {
+            return Ok((!matches!(set.operator, SetOperator::Union)).then(|| c.clone()));
+        }
         (SubtypeElements::PermittedAlphabet(elem_or_set), None)
         | (SubtypeElements::SizeConstraint(elem_or_set), None) => {
             return match &**elem_or_set {
